@@ -272,15 +272,24 @@ func c18Build(seed uint64, i int, corpus []CorpusDir, faulty bool) *c18Case {
 		c.exp = r.chance(1, 3)
 		if r.chance(1, 3) && len(workloads) > 0 {
 			w := pick(r, workloads)
-			switch r.intn(4) {
+			bare := w[strings.Index(w, "/")+1:]
+			switch r.intn(8) {
 			case 0:
 				c.focus = w
 			case 1:
-				c.focus = w[strings.Index(w, "/")+1:]
+				c.focus = bare
 			case 2:
 				c.focus = "no-such-workload"
-			default:
+			case 3:
 				c.focus = "ingress-controller"
+			case 4:
+				c.focus = strings.ToUpper(bare) // names are case sensitive: must not match
+			case 5:
+				c.focus = bare + " " // nor with a trailing blank
+			case 6:
+				c.focus = bare[:len(bare)-1] // nor by prefix
+			default:
+				c.focus = w + "/" // nor with a trailing separator
 			}
 		}
 	}
